@@ -122,6 +122,41 @@ exact: (@eigpairs_backward_adjoint_degenerate R D n k A M x e HA HM He Ho half H
 Qed.
 Print Assumptions C06_eigpairs_backward_adjoint_degenerate.
 
+(* T7: the COMPLEX (Hermitian) case of the implicit path, one non-degenerate kept column, partial spectrum, with M.  cj is the
+   conjugation (an involutive ring morphism), D a derivation commuting with it (a real parameter), A^H = conj(A^T); A, M Hermitian,
+   e real, x^H M x = 1.  The eigenvector map is not holomorphic: the cotangent pairing is the REAL part of the Hermitian inner product
+   (PyTorch's convention), and the gauge freedom is the phase of x - the loss must not depend on it, i.e. x^H g is real.  With the
+   .conj() calls of the code (b = g - (x^H g) M x, w = v - (x^H M v) x, the parallel term -1/2 (x^H g) x):
+        Re( g^H dx + ge de ) = Re( accA^H dA x + accM^H dM x )      for every tangent. *)
+From XV Require Import Proofs.SymeigConj.
+Theorem C06_eigpair_backward_adjoint_conjugate :
+  forall (R : comRingType) (cj : {rmorphism R -> R}), involutive cj ->
+  forall (D : derivation R), (forall a, D (cj a) = cj (D a)) ->
+  forall n (A M : 'M[R]_n) (x : 'cV[R]_n) (e : R),
+  map_mx cj A^T = A -> map_mx cj M^T = M -> cj e = e -> A *m x = e *: (M *m x) -> hdot cj x (M *m x) = 1 ->
+  forall half : R, half + half = 1 ->
+  forall (g v : 'cV[R]_n) (ge : R), cj ge = ge -> cj (hdot cj x g) = hdot cj x g ->
+  A *m v - e *: (M *m v) = - (g - hdot cj x g *: (M *m x)) ->
+  let w := v - hdot cj x (M *m v) *: x in
+  let accA := ge *: x + w in
+  let accM := - (ge * e) *: x - e *: w - (half * hdot cj x g) *: x in
+  Re cj half (hdot cj g (dmx D x) + ge * D e) =
+  Re cj half (hdot cj accA (dmx D A *m x) + hdot cj accM (dmx D M *m x)).
+Proof.
+move=> R cj cjK D Dcj n A M x e HA HM He Heig Hn half Hh g v ge Hge Hga Hv /=.
+exact: (@eigpair_backward_adjoint_conj R cj cjK D Dcj n A M x e HA HM He Heig Hn half Hh g v ge Hge Hga Hv).
+Qed.
+Print Assumptions C06_eigpair_backward_adjoint_conjugate.
+
+(* Hellmann-Feynman in the Hermitian case *)
+Theorem C06_eigval_tangent_conjugate :
+  forall (R : comRingType) (cj : {rmorphism R -> R}), involutive cj ->
+  forall (D : derivation R) n (A M : 'M[R]_n) (x : 'cV[R]_n) (e : R),
+  map_mx cj A^T = A -> map_mx cj M^T = M -> cj e = e -> A *m x = e *: (M *m x) -> hdot cj x (M *m x) = 1 ->
+  D e = hdot cj x (dmx D A *m x) - e * hdot cj x (dmx D M *m x).
+Proof. move=> R cj cjK D n A M x e HA HM He Heig Hn; exact: (eigval_tangent_conj cjK D HA HM He Heig Hn). Qed.
+Print Assumptions C06_eigval_tangent_conjugate.
+
 (* non-vacuity: a genuinely degenerate spectrum (A = 1, e = (1, 1)) with the full mask meets every hypothesis of T5 *)
 Example C06_degenerate_hypotheses_satisfiable :
   let A : 'M[rat]_2 := 1%:M in let Y : 'M[rat]_2 := 1%:M in let e : 'rV[rat]_2 := \row_i 1 in
